@@ -17,6 +17,7 @@ MANIFEST = {
     'note': 'Trusted: numpy/scipy, the harness extrema counter. sift_thresh default; PCHIP cases capped at 150 samples for cost.',
     'technique': 'runtime post-condition monitor on the real sift + exit-path probe, seeded workload with feedback corpus',
 }
+LOGGER_ON_ODD_SHARDS = 'quarter'   # (sifting logs heavily: a quarter of the shards run with the logger set up)
 BUDGET_S = {'quick': 60, 'thorough': 420}
 NCASES = {'quick': 3600, 'thorough': 48000}
 RULE = ('seeded random (family x length x stop rule x step x interpolation x pad width), plus a feedback corpus of '
